@@ -653,6 +653,49 @@ PROPS["C05"]["families"].append(burst_family("deadline"))
 PROPS["C09"]["families"].append(burst_family("fault"))
 PROPS["C11"]["families"].append(burst_family("abandon", "reply", "deadline"))
 
+
+def server_burst_fixed(kinds):
+    def f(tier):
+        out = []
+        big = dict(limit=-1, respBuf=1, mode="always", cap=1, open=True, credits=0, spin=40000, burst=True)
+
+        def reqs(n, dl):
+            return [{"a": "Req", "id": i, "dl": dl} for i in range(n)]
+
+        for n in ((40, 100) if tier == "quick" else (33, 40, 65, 100, 130, 250)):
+            yield_all = [{"a": "Poll", "t": "s"} for _ in range(n + 1)]
+            hp = [{"a": "Poll", "t": "h%d" % i} for i in range(1, n + 1)]
+            if "complete" in kinds:
+                out.append(dict(id="sburst:complete:%d" % n, cfg=big, steps=reqs(n, 10000) + yield_all + hp
+                                + [{"a": "Complete", "h": i} for i in range(1, n + 1)] + [{"a": "Settle"}]))
+                out.append(dict(id="sburst:complete-buf:%d" % n, cfg=dict(big, respBuf=2, mode="coupled", cap=2), steps=reqs(n, 10000) + yield_all
+                                + [{"a": "Complete", "h": i} for i in range(n, 0, -1)] + [{"a": "Settle"}]))
+            if "cancel" in kinds:
+                out.append(dict(id="sburst:cancel:%d" % n, cfg=big, steps=reqs(n, 10000) + yield_all + hp
+                                + [{"a": "Cancel", "id": i} for i in range(n)] + [{"a": "Settle"}]))
+                out.append(dict(id="sburst:appdrop:%d" % n, cfg=big, steps=reqs(n, 10000) + yield_all + hp[: n // 2]
+                                + [{"a": "DropHandler", "h": i} for i in range(1, n + 1)] + [{"a": "Settle"}]))
+            if "deadline" in kinds:
+                out.append(dict(id="sburst:deadline:%d" % n, cfg=big, steps=reqs(n, 5) + yield_all + hp
+                                + [{"a": "Tick", "d": 6}, {"a": "Settle"}]))
+            if "throttle" in kinds:
+                out.append(dict(id="sburst:throttle:%d" % n, cfg=dict(big, limit=2), steps=reqs(n, 10000) + [{"a": "Settle"}]
+                                + [{"a": "Complete", "h": 1}, {"a": "Complete", "h": 2}, {"a": "Settle"}]))
+        return out
+    return f
+
+
+def server_burst_family(*kinds):
+    return dict(family="server", trace_module="Trace_Server", fixed=server_burst_fixed(set(kinds)), exports=[], random_quick=0,
+                random_thorough=0, tag="burst", opts={})
+
+
+PROPS["C04"]["families"].append(server_burst_family("cancel"))
+PROPS["C06"]["families"].append(server_burst_family("deadline"))
+PROPS["C08"]["families"].append(server_burst_family("complete", "cancel"))
+PROPS["C11"]["families"].append(server_burst_family("complete", "cancel", "deadline"))
+PROPS["C12"]["families"].append(server_burst_family("throttle"))
+
 # ------------------------------------------------------------------ in-memory transports (Chan.tla): C15 (and panics for C16)
 def chan_to_sched(g, consts):
     import hashlib
